@@ -39,19 +39,16 @@ def model_check(ctx):
         ctx.exhaustive = True
     ctx.check_coverage(r, ["ArrPut", "ArrPop", "ArrSet", "ArrGet", "ArrSize", "DictSet", "DictDelete", "DictGet",
                            "DictBadArity", "VarSet", "VarDelete", "VarGet"], allow_zero=("Freeze", "AnySnap"))
-    # with read-only snapshots of the store (shorter histories: the snapshot multiplies the state space)
+    # with read-only snapshots of the store and the depth-3 dictionary (GetDB with one key, two keys at once, two chained
+    # calls); shorter histories: both multiply the state space
     rs = ctx.model_check("data", "MC_Containers", "MC_Containers.cfg",
-                         constants={"MaxOps": ctx.pick(4, 5), "MaxLen": 2, "Snaps": "TRUE"}, coverage=True,
-                         timeout=ctx.pick(900, 2400), label="snapshots")
-    ctx.check_coverage(rs, ["Freeze", "AnySnapRead", "AnySnapWrite"])
-    # with the depth-3 dictionary (GetDB with one key, two keys at once, two chained calls)
-    rd = ctx.model_check("data", "MC_Containers", "MC_Containers.cfg",
-                         constants={"MaxOps": ctx.pick(3, 4), "MaxLen": 2, "Snaps": "FALSE", "Deep": "TRUE"}, coverage=True,
-                         timeout=ctx.pick(900, 2400), label="depth-3 dictionary")
-    ctx.check_coverage(rd, ["DictSet", "DictGet", "DictDelete"], allow_zero=("Freeze", "AnySnap"))
+                         constants={"MaxOps": ctx.pick(3, 4), "MaxLen": 2, "Snaps": "TRUE", "Deep": "TRUE"}, coverage=True,
+                         timeout=ctx.pick(900, 3000), label="snapshots + depth-3 dictionary")
+    ctx.check_coverage(rs, ["Freeze", "AnySnapRead", "AnySnapWrite", "DictSet", "DictGet", "DictDelete"])
     # the same for the containers of system SCOREs (service/scoredb: type part 0x00/0x01/0x02, one shared name)
     ctx.model_check("data", "MC_Containers", "MC_Containers.cfg",
-                    constants={"MaxOps": ctx.pick(4, 6), "MaxLen": 2, "Universe": '"scoredb"', "BType": '"hash"', "Snaps": "FALSE"},
+                    constants={"MaxOps": ctx.pick(3, 5), "MaxLen": 2, "Universe": '"scoredb"', "BType": '"hash"', "Snaps": "FALSE",
+                               "Deep": "TRUE"},
                     timeout=1800, label="scoredb universe")
     # sensitivity guard: the same universe under the non-injective raw builder must collide
     g = ctx.tlc("data", "MC_ContainersRaw", "MC_ContainersRaw.cfg", expect_violation=True, count=False,
@@ -89,6 +86,8 @@ def replay(ctx):
             if i == 0 or not ctx.quick():
                 cb += ctx.behaviours("data", "Gen_Containers", "Gen_Containers.cfg",
                                      constants=dict(cs, MaxOps=2, Depth=2), timeout=900)
+            if ctx.quick() and i in (1, 3):
+                continue        # quick: random walks for hash, prefixed-hash and scoredb containers only
             wl = ctx.pick(16, 30)
             cb += ctx.behaviours("data", "Gen_Containers", "Gen_Containers.cfg",
                                  constants=dict(cs, MaxOps=wl, Depth=wl, Deep="TRUE"),
